@@ -183,8 +183,10 @@ func c13Pending(c *core.Ctx) {
 	}
 }
 
-// lockedAtEntry reports whether fn locks mutex field `mu` of its receiver
-// chain at entry and defers the unlock, before anything else with effects.
+// lockedAtEntry reports whether fn locks mutex field `mu` of its receiver chain in its entry block and defers
+// the unlock before anything that can touch the state the mutex guards: before the lock only reads, stores
+// to locals and calls that cannot reach that state (builtins, functions of other packages such as loggers)
+// are accepted; a call to a function of the same package, a store to the heap or a map update is not.
 func lockedAtEntry(fn *ssa.Function, muOwnerSuffix string) bool {
 	if fn == nil || len(fn.Blocks) == 0 {
 		return false
@@ -199,7 +201,15 @@ func lockedAtEntry(fn *ssa.Function, muOwnerSuffix string) bool {
 				continue
 			}
 			if !locked {
-				// calls before the lock: only pure-looking ones (loggers are not expected here)
+				if _, isBuiltin := x.Call.Value.(*ssa.Builtin); isBuiltin {
+					continue
+				}
+				if callee := x.Call.StaticCallee(); callee != nil && callee.Pkg != nil && fn.Pkg != nil && callee.Pkg != fn.Pkg {
+					continue // another package cannot reach unexported guarded fields
+				}
+				if x.Call.IsInvoke() && !strings.Contains(x.Call.Value.Type().String(), core.Module) {
+					continue // interface of another module (logr.Logger, …)
+				}
 				return false
 			}
 		case *ssa.Defer:
